@@ -1,4 +1,5 @@
 """C15 — every request gets an answer; invalid input refused without effect."""
+import re
 from vlib.mo import *
 from vlib.runner import KH, run_kani_group, run_mir_obligations
 
@@ -68,6 +69,34 @@ def stream_item_checks(F):
     return out
 
 
+def bulk_load_every_item(F):
+    """TieredEngine::bulk_load_cold_tier (behind BulkLoadHnsw): every item of the batch is handed to HnswBackend::insert before
+    the next one is taken (no item is dropped or merged away on the strength of a *later* item that may yet be refused), the
+    `loaded` counter moves only on the insert's Ok arm and `failed` only on its Err arm."""
+    f = "tiered_engine::TieredEngine::bulk_load_cold_tier"
+    fc = FnCheck(F, f)
+    if fc.fn is None:
+        return [fc.missing()]
+    fn = fc.fn
+    ITEMS = r"(std::vec::)?IntoIter<\(u64, Vec<f32>, HashMap<(std::string::)?String, (std::string::)?String>\)>"
+    NEXT = call(r"= <(std::iter::Enumerate<)?" + ITEMS + r">? as Iterator>::next\(", name="next item of the batch")
+    ITEM = Arm(r"^discr\(call <(Enumerate<)?IntoIter<\(u64, Vec<f32>, HashMap<String, String>\)>>? as Iterator>::next\)$", {"1"}, name="an item was taken")
+    INS = call(r"= HnswBackend::insert\(", name="cold_tier.insert(item)")
+    INS_OK = Arm(r"^discr\(call HnswBackend::insert\)$", {"0"}, name="cold_tier.insert -> Ok")
+    INS_ERR = Arm(r"^discr\(call HnswBackend::insert\)$", {"1"}, name="cold_tier.insert -> Err")
+    out = [fc.follows(ITEM, INS, exit="any", exit_ev=NEXT), fc.follows(ITEM, INS, exit="return")]
+    # the two counters: `x = Add(copy x, const 1_u64)` on locals whose debug names are loaded / failed
+    inv = {v: k for k, v in fn.debug.items()}
+    for nm, arm in (("loaded", INS_OK), ("failed", INS_ERR)):
+        loc = fn.debug.get(nm)
+        if not loc:
+            out.append(Result("inconclusive", "counter `%s` not found in bulk_load_cold_tier" % nm))
+            continue
+        BUMP = stmt(r"^%s = Add\(copy %s, const 1_u64\);$" % (re.escape(loc), re.escape(loc)), name="%s += 1" % nm)
+        out.append(fc.only_via(BUMP, arm))
+    return out
+
+
 def insert_decision(F):
     """validate_insert_request: Ok <=> doc_id >= MIN_DOC_ID and the embedding is non-empty, at most MAX_EMBEDDING_DIM long and all
     finite — the whole decision, for every value of doc_id and of the length (DECIDES; the emptiness and finiteness tests are
@@ -86,6 +115,8 @@ MOS = [
        functions=[("bin/kyrodb_server.rs", "batch_delete"), ("bin/kyrodb_server.rs", "bulk_query")], target="kyrodb_server"),
     MO("O15.7/stream_item_checks", "BulkInsert / BulkLoadHnsw: an item reaches the engine / the load queue only if doc_id >= MIN_DOC_ID, 0 < len <= MAX_EMBEDDING_DIM, map_doc_id -> Ok and the running count is within the stream cap — for every value (DECIDES, server binary)",
        stream_item_checks, functions=[("bin/kyrodb_server.rs", "bulk_insert"), ("bin/kyrodb_server.rs", "bulk_load_hnsw")], target="kyrodb_server"),
+    MO("O15.8/bulk_load_every_item", "TieredEngine::bulk_load_cold_tier: every item of a batch reaches HnswBackend::insert before the next is taken; `loaded` / `failed` move only on the insert's Ok / Err arm (a refused item cannot erase or stand in for another item of the stream)",
+       bulk_load_every_item, functions=[("tiered_engine.rs", "bulk_load_cold_tier")]),
     MO("O15.5/insert_decision", "validate_insert_request: Ok <=> doc_id >= MIN_DOC_ID, embedding non-empty, length <= MAX_EMBEDDING_DIM, all lanes finite — whole decision for every doc_id and length (DECIDES)",
        insert_decision, functions=[("api_validation.rs", "validate_insert_request")]),
     MO("O15.4/engine_refusal", "every engine write path goes through HnswBackend::insert, which runs normalize_in_place_if_needed and the index's own acceptance test (finite lanes, norm band) before the WAL append "
